@@ -38,6 +38,10 @@
          "cmdId"    pre-fix variant matching on command byte and parameter index (a partial repair)
          "noReset"  the read/write branch of _new_packet_cb does not reset _lock_pattern after a match:
                     a duplicated reply matches again                  (sensitivity; seeded change m3)
+         "liveIter" Caller.call iterates the live callback list: a callback that unregisters itself makes the
+                    next one miss the update                          (sensitivity; seeded change r2-m3)
+         "waitTimeout" the updater gives up waiting for wait_lock after a timeout and sends the next request
+                    (abstractly: whenever the lock is still held)     (sensitivity; seeded change r2-m1)
          "noWait"   the updater does not wait for wait_lock          (sensitivity)
          "lifo"     the updater takes the newest request first       (sensitivity)
          "wrap"     out-of-range integers are wrapped, not refused   (sensitivity)
@@ -76,11 +80,12 @@ VARIABLES cf,                             \* the configuration (never changes; a
           inq,                            \* link.in_queue (emitted, not yet dispatched)
           dpc, snap, dpk, dcb,            \* dispatcher (dcb: reply callback taken, to be called after the release)
           cache,                          \* Param.values (typed bytes)
+          regs,                           \* ids of the registered update callbacks, in registration order
           nextRid, nnotif, ndup,
           calls, issued, wire, down, rxs, gots     \* history (ParamProtoProps)
 
 vars == <<cf, ust, ucur, oneShots, reqQ, upc, cur, waitLock, lockPat, replyCb, dcb, devq, dval, dstored, inq,
-          dpc, snap, dpk, cache, nextRid, nnotif, ndup, calls, issued, wire, down, rxs, gots>>
+          dpc, snap, dpk, cache, regs, nextRid, nnotif, ndup, calls, issued, wire, down, rxs, gots>>
 
 NoReq == [rid |-> 0, chan |-> 0, data |-> <<>>]
 NoCb == [cmd |-> 0, p |-> 0, rid |-> 0]
@@ -99,6 +104,7 @@ Init ==
     /\ inq = <<>>
     /\ dpc = "recv" /\ snap = <<>> /\ dpk = [chan |-> 0, data |-> <<>>]
     /\ cache = cf.init
+    /\ regs = SelectSeq([i \in DOMAIN cf.updcbs |-> cf.updcbs[i].id], LAMBDA id : P!CbById(cf, id).reg0)
     /\ nextRid = 1 /\ nnotif = 0 /\ ndup = 0
     /\ calls = <<>> /\ issued = <<>> /\ wire = <<>> /\ down = <<>> /\ rxs = <<>> /\ gots = <<>>
 
@@ -153,7 +159,7 @@ UBegin(u, op) ==
                               THEN Append(oneShots, [cmd |-> P!CmdOf(op.k), p |-> op.p, rid |-> rid])
                               ELSE oneShots
                /\ UNCHANGED gots
-    /\ UNCHANGED <<ndup, cf, replyCb, dcb, reqQ, upc, cur, waitLock, lockPat, devq, dval, dstored, inq, dpc, snap, dpk,
+    /\ UNCHANGED <<regs, ndup, cf, replyCb, dcb, reqQ, upc, cur, waitLock, lockPat, devq, dval, dstored, inq, dpc, snap, dpk,
                    cache, nnotif, issued, wire, down, rxs>>
 
 UPut(u) ==
@@ -163,7 +169,7 @@ UPut(u) ==
     /\ calls' = [i \in DOMAIN calls |-> IF calls[i].rid = ucur[u].rid THEN [calls[i] EXCEPT !.done = TRUE] ELSE calls[i]]
     /\ ust' = [ust EXCEPT ![u] = "idle"]
     /\ ucur' = [ucur EXCEPT ![u] = NoReq]
-    /\ UNCHANGED <<ndup, cf, replyCb, dcb, oneShots, upc, cur, waitLock, lockPat, devq, dval, dstored, inq, dpc, snap, dpk,
+    /\ UNCHANGED <<regs, ndup, cf, replyCb, dcb, oneShots, upc, cur, waitLock, lockPat, devq, dval, dstored, inq, dpc, snap, dpk,
                    cache, nextRid, nnotif, wire, down, rxs, gots>>
 
 \* ------------------------------------------------------------------ updater thread
@@ -173,7 +179,7 @@ UpdGet ==
        THEN cur' = reqQ[Len(reqQ)] /\ reqQ' = SubSeq(reqQ, 1, Len(reqQ) - 1)
        ELSE cur' = Head(reqQ) /\ reqQ' = Tail(reqQ)
     /\ upc' = "lock"
-    /\ UNCHANGED <<ndup, cf, replyCb, dcb, ust, ucur, oneShots, waitLock, lockPat, devq, dval, dstored, inq, dpc, snap, dpk,
+    /\ UNCHANGED <<regs, ndup, cf, replyCb, dcb, ust, ucur, oneShots, waitLock, lockPat, devq, dval, dstored, inq, dpc, snap, dpk,
                    cache, nextRid, nnotif, calls, issued, wire, down, rxs, gots>>
 
 UpdLock ==
@@ -184,7 +190,22 @@ UpdLock ==
                    THEN [cmd |-> cur.data[1], p |-> P!IdOf(SubSeq(cur.data, 2, 3)), rid |-> cur.rid]
                    ELSE replyCb                    \* (read/write requests leave _reply_callback alone)
     /\ upc' = "send"
-    /\ UNCHANGED <<ndup, cf, dcb, ust, ucur, oneShots, reqQ, cur, devq, dval, dstored, inq, dpc, snap, dpk, cache,
+    /\ UNCHANGED <<regs, ndup, cf, dcb, ust, ucur, oneShots, reqQ, cur, devq, dval, dstored, inq, dpc, snap, dpk, cache,
+                   nextRid, nnotif, calls, issued, wire, down, rxs, gots>>
+
+\* Time: the repaired code has no timed wait in this subsystem except the dispatcher's 1 s poll, which changes
+\* nothing; replies may take any (virtual) time.  A clock is therefore not part of the state: "each answered
+\* before the next is sent" holds for every delay because no action depends on a delay.  The harness does
+\* advance the virtual clock (device holds replies 0.5 .. 10 s); its Tick / DispIdle steps are stuttering steps.
+\* The seeded timeout is the variant below.
+UpdLockTimeout ==
+    /\ Bug = "waitTimeout" /\ upc = "lock" /\ waitLock
+    /\ lockPat' = LockPatOf(cur)
+    /\ replyCb' = IF cur.chan = 3 /\ ~PreFix
+                   THEN [cmd |-> cur.data[1], p |-> P!IdOf(SubSeq(cur.data, 2, 3)), rid |-> cur.rid]
+                   ELSE replyCb
+    /\ upc' = "send"
+    /\ UNCHANGED <<regs, ndup, cf, dcb, waitLock, ust, ucur, oneShots, reqQ, cur, devq, dval, dstored, inq, dpc, snap, dpk, cache,
                    nextRid, nnotif, calls, issued, wire, down, rxs, gots>>
 
 NAns == Cardinality({i \in DOMAIN down : down[i].kind = "ans"})
@@ -194,13 +215,13 @@ UpdSend ==
     /\ wire' = Append(wire, [chan |-> cur.chan, data |-> cur.data, nans |-> NAns])
     /\ devq' = Append(devq, [chan |-> cur.chan, data |-> cur.data, w |-> Len(wire) + 1])
     /\ upc' = "unlock"
-    /\ UNCHANGED <<ndup, cf, replyCb, dcb, ust, ucur, oneShots, reqQ, cur, waitLock, lockPat, dval, dstored, inq, dpc, snap,
+    /\ UNCHANGED <<regs, ndup, cf, replyCb, dcb, ust, ucur, oneShots, reqQ, cur, waitLock, lockPat, dval, dstored, inq, dpc, snap,
                    dpk, cache, nextRid, nnotif, calls, issued, down, rxs, gots>>
 
 UpdDone ==
     /\ upc = "unlock"
     /\ upc' = "get" /\ cur' = NoReq
-    /\ UNCHANGED <<ndup, cf, replyCb, dcb, ust, ucur, oneShots, reqQ, waitLock, lockPat, devq, dval, dstored, inq, dpc, snap,
+    /\ UNCHANGED <<regs, ndup, cf, replyCb, dcb, ust, ucur, oneShots, reqQ, waitLock, lockPat, devq, dval, dstored, inq, dpc, snap,
                    dpk, cache, nextRid, nnotif, calls, issued, wire, down, rxs, gots>>
 
 \* ------------------------------------------------------------------ device (firmware twin)
@@ -228,7 +249,7 @@ DevAnswer ==
           /\ inq' = Append(inq, [chan |-> q.chan, data |-> rdata])
           /\ down' = Append(down, [kind |-> "ans", chan |-> q.chan, data |-> rdata, w |-> q.w])
     /\ devq' = Tail(devq)
-    /\ UNCHANGED <<ndup, cf, replyCb, dcb, ust, ucur, oneShots, reqQ, upc, cur, waitLock, lockPat, dpc, snap, dpk, cache,
+    /\ UNCHANGED <<regs, ndup, cf, replyCb, dcb, ust, ucur, oneShots, reqQ, upc, cur, waitLock, lockPat, dpc, snap, dpk, cache,
                    nextRid, nnotif, calls, issued, wire, rxs, gots>>
 
 DevNotify(n) ==
@@ -238,7 +259,7 @@ DevNotify(n) ==
     /\ LET data == <<1>> \o P!IdBytes(n.p) \o n.v IN
        /\ inq' = Append(inq, [chan |-> 3, data |-> data])
        /\ down' = Append(down, [kind |-> "ntf", chan |-> 3, data |-> data, w |-> 0])
-    /\ UNCHANGED <<ndup, cf, replyCb, dcb, ust, ucur, oneShots, reqQ, upc, cur, waitLock, lockPat, devq, dstored, dpc, snap, dpk,
+    /\ UNCHANGED <<regs, ndup, cf, replyCb, dcb, ust, ucur, oneShots, reqQ, upc, cur, waitLock, lockPat, devq, dstored, dpc, snap, dpk,
                    cache, nextRid, calls, issued, wire, rxs, gots>>
 
 DevDup(i) ==
@@ -246,17 +267,44 @@ DevDup(i) ==
     /\ ndup' = ndup + 1
     /\ inq' = Append(inq, [chan |-> down[i].chan, data |-> down[i].data])
     /\ down' = Append(down, [kind |-> "dup", chan |-> down[i].chan, data |-> down[i].data, w |-> down[i].w])
-    /\ UNCHANGED <<cf, replyCb, dcb, ust, ucur, oneShots, reqQ, upc, cur, waitLock, lockPat, devq, dval, dstored, dpc, snap, dpk,
+    /\ UNCHANGED <<regs, cf, replyCb, dcb, ust, ucur, oneShots, reqQ, upc, cur, waitLock, lockPat, devq, dval, dstored, dpc, snap, dpk,
                    cache, nextRid, nnotif, calls, issued, wire, rxs, gots>>
 
 \* ------------------------------------------------------------------ dispatcher thread
 \* update callbacks in the order the code calls them: per-parameter, per-group, all
-UpdSeq(p) == SelectSeq(cf.updcbs, LAMBDA c : c.scope = "param" /\ c.ref = p)
-             \o SelectSeq(cf.updcbs, LAMBDA c : c.scope = "group" /\ c.ref = cf.group[p])
-             \o SelectSeq(cf.updcbs, LAMBDA c : c.scope = "all")
-UpdEvents(p, x) == LET s == UpdSeq(p)
-                       one == [i \in DOMAIN s |-> [cb |-> s[i].id, p |-> p, arg |-> Raw(x), cache |-> Raw(x), get |-> Raw(x)]]
-                   IN IF Bug = "cbTwice" THEN one \o one ELSE one
+CbOf(id) == P!CbById(cf, id)
+\* the Caller objects _param_updated goes through, in this order: per parameter, per group, all
+CallerKeys(p) == <<<<"param", p>>, <<"group", cf.group[p]>>, <<"all", 0>>>>
+CallerList(rg, key) == SelectSeq(rg, LAMBDA id : CbOf(id).scope = key[1] /\ (key[1] = "all" \/ CbOf(id).ref = key[2]))
+\* what callback c does to the registrations when it runs: [regs, ops]
+ApplyScript(c, rg) ==
+    LET sc == CbOf(c).script
+        here(id) == \E i \in DOMAIN rg : rg[i] = id
+    IN CASE sc[1] = "removeSelf" /\ here(c) -> [regs |-> Remove(rg, c), ops |-> <<<<"remove", c>>>>]
+         [] sc[1] = "remove" /\ here(sc[2]) -> [regs |-> Remove(rg, sc[2]), ops |-> <<<<"remove", sc[2]>>>>]
+         [] sc[1] = "add" /\ ~here(sc[2]) -> [regs |-> Append(rg, sc[2]), ops |-> <<<<"add", sc[2]>>>>]
+         [] OTHER -> [regs |-> rg, ops |-> <<>>]
+UpdEv(c, p, x, ops) == [cb |-> c, p |-> p, arg |-> Raw(x), cache |-> Raw(x), get |-> Raw(x), ops |-> ops]
+\* Caller.call: the callbacks of a copy of the list taken at the start (Bug "liveIter", seeded change r2-m3:
+\* the live list with a running index, so a removal shifts the rest)
+RECURSIVE RunCopy(_, _, _, _, _, _)
+RunCopy(snp, i, rg, acc, p, x) ==
+    IF i > Len(snp) THEN [regs |-> rg, upds |-> acc]
+    ELSE LET a == ApplyScript(snp[i], rg)
+             e == UpdEv(snp[i], p, x, a.ops)
+         IN RunCopy(snp, i + 1, a.regs, IF Bug = "cbTwice" THEN acc \o <<e, [e EXCEPT !.ops = <<>>]>> ELSE Append(acc, e), p, x)
+RECURSIVE RunLive(_, _, _, _, _, _)
+RunLive(key, i, rg, acc, p, x) ==
+    LET lst == CallerList(rg, key) IN
+    IF i > Len(lst) THEN [regs |-> rg, upds |-> acc]
+    ELSE LET a == ApplyScript(lst[i], rg) IN RunLive(key, i + 1, a.regs, Append(acc, UpdEv(lst[i], p, x, a.ops)), p, x)
+RECURSIVE RunCallers(_, _, _, _, _, _)
+RunCallers(keys, k, rg, acc, p, x) ==
+    IF k > Len(keys) THEN [regs |-> rg, upds |-> acc]
+    ELSE LET r == IF Bug = "liveIter" THEN RunLive(keys[k], 1, rg, acc, p, x)
+                  ELSE RunCopy(CallerList(rg, keys[k]), 1, rg, acc, p, x)
+         IN RunCallers(keys, k + 1, r.regs, r.upds, p, x)
+UpdRun(p, x) == RunCallers(CallerKeys(p), 1, regs, <<>>, p, x)
 
 \* what a one-shot callback of entry e makes of packet data d (as the code decodes it, with the
 \* width of ITS OWN parameter): [ok, pay]; ~ok = struct.error, the callback stays registered
@@ -301,20 +349,22 @@ DispRecv ==
            p == IF pk.chan = 3 THEN P!IdOf(P!SubSeqSafe(d, 2, 3)) ELSE P!IdOf(P!SubSeqSafe(d, 1, 2))
            x == IF pk.chan = 2 THEN P!SubSeqSafe(d, 3, Len(d)) ELSE P!SubSeqSafe(d, 4, Len(d))
            doUpd == ((pk.chan \in {1, 2} /\ match) \/ isNtf) /\ Known(p) /\ Len(x) = P!Width(cf.type[p])
-           upds == IF doUpd THEN UpdEvents(p, x) ELSE <<>>
+           run == IF doUpd THEN UpdRun(p, x) ELSE [regs |-> regs, upds |-> <<>>]
+           upds == run.upds
        IN
        /\ cache' = IF doUpd THEN [cache EXCEPT ![p] = x] ELSE cache
+       /\ regs' = run.regs
        /\ dpk' = pk
        /\ IF match
           THEN /\ lockPat' = IF Bug = "noReset" /\ pk.chan \in {1, 2} THEN lockPat ELSE <<>>
                /\ IF pk.chan = 3 THEN dcb' = replyCb /\ replyCb' = NoCb ELSE UNCHANGED <<dcb, replyCb>>
                /\ snap' = oneShots
                /\ dpc' = "rel"
-               /\ rxs' = Append(rxs, [chan |-> pk.chan, data |-> d, upds |-> upds, cbs |-> <<>>])
+               /\ rxs' = Append(rxs, [chan |-> pk.chan, data |-> d, upds |-> upds, cbs |-> <<>>, before |-> regs])
                /\ UNCHANGED oneShots
           ELSE LET r == Shots(pk, oneShots, 1, oneShots, <<>>) IN
                /\ oneShots' = r.os
-               /\ rxs' = Append(rxs, [chan |-> pk.chan, data |-> d, upds |-> upds, cbs |-> r.cbs])
+               /\ rxs' = Append(rxs, [chan |-> pk.chan, data |-> d, upds |-> upds, cbs |-> r.cbs, before |-> regs])
                /\ UNCHANGED <<lockPat, snap, dpc, dcb, replyCb>>
     /\ inq' = Tail(inq)
     /\ UNCHANGED <<ndup, cf, ust, ucur, reqQ, upc, cur, waitLock, devq, dval, dstored, nextRid, nnotif,
@@ -327,12 +377,12 @@ DispRel ==
        /\ oneShots' = r.os
        /\ rxs' = [rxs EXCEPT ![Len(rxs)].cbs = OwnCb(dcb, dpk) \o r.cbs]
     /\ dpc' = "recv" /\ snap' = <<>> /\ dcb' = NoCb
-    /\ UNCHANGED <<ndup, cf, replyCb, ust, ucur, reqQ, upc, cur, lockPat, devq, dval, dstored, inq, dpk, cache,
+    /\ UNCHANGED <<regs, ndup, cf, replyCb, ust, ucur, reqQ, upc, cur, lockPat, devq, dval, dstored, inq, dpk, cache,
                    nextRid, nnotif, calls, issued, wire, down, gots>>
 
 Next == \/ \E u \in Users, op \in Ops : UBegin(u, op)
         \/ \E u \in Users : UPut(u)
-        \/ UpdGet \/ UpdLock \/ UpdSend \/ UpdDone
+        \/ UpdGet \/ UpdLock \/ UpdLockTimeout \/ UpdSend \/ UpdDone
         \/ DevAnswer
         \/ \E n \in Notifs : DevNotify(n)
         \/ \E i \in 1..(MaxOps + MaxNotif + MaxDup) : DevDup(i)
